@@ -207,14 +207,15 @@ theorem feedback_evolution_form (env : Env) (init : Algo) (hb : IsBase init) (in
     ∨ ∃ it2 si' ini' g',
         feedback env (.evolution init initSize) (.evolution np nf si ini g pop pend) it r
           = .ok (it2, .evolution np (nf + 1) si' ini' g' (env.update (pop ++ [it2]) nf) pend)
-        ∧ it2.fbseq = some (nf + 1) ∧ it2.reward = some r ∧ it2.gid = it.gid ∧ it2.initial = it.initial := by
+        ∧ it2.fbseq = some (nf + 1) ∧ it2.reward = some r ∧ it2.gid = it.gid ∧ it2.initial = it.initial
+          ∧ it2.key = it.key := by
   obtain ⟨hgid, hinit⟩ := hit
   obtain ⟨isInit, hinit'⟩ := Option.isSome_iff_exists.mp hinit
   simp only [feedback, hinit']
   cases isInit with
   | false =>
     simp only [Bool.false_eq_true, ↓reduceIte]
-    exact Or.inr ⟨_, _, _, _, rfl, rfl, rfl, rfl, rfl⟩
+    exact Or.inr ⟨_, _, _, _, rfl, rfl, rfl, rfl, rfl, rfl⟩
   | true =>
     simp only [↓reduceIte]
     cases hf : feedback env init si
@@ -225,7 +226,7 @@ theorem feedback_evolution_form (env : Env) (init : Algo) (hb : IsBase init) (in
       obtain ⟨it2, si'⟩ := res
       have h2 := feedback_base_item env init hb _ _ _ _ _ hf
       subst h2
-      exact Or.inr ⟨_, _, _, _, rfl, rfl, rfl, rfl, rfl⟩
+      exact Or.inr ⟨_, _, _, _, rfl, rfl, rfl, rfl, rfl, rfl⟩
 
 theorem live_evolution (env : Env) (init : Algo) (hb : IsBase init) (initSize : Option Nat) (run : List Event) :
     EvoInv (runLive env (.evolution init initSize) run) := by
